@@ -46,6 +46,9 @@ pub enum End {
     ServerBroadcastOverBudget,
     /// the same through broadcast_message_except(client 1): only client 0 is disconnected
     ServerBroadcastExceptOverBudget,
+    /// the same while client 0's process has just disappeared (nothing arrives from it any more): the message layer's
+    /// decision alone must end the session, at once and not through the time-out
+    ServerBroadcastExceptOverBudgetSilentPeer,
 }
 
 #[derive(Clone, Copy, Debug, PartialEq, Eq)]
@@ -431,6 +434,10 @@ impl<'c> World<'c> {
             if !self.clients[i].alive {
                 continue;
             }
+            if self.cfg.end == End::ServerBroadcastExceptOverBudgetSilentPeer && i == 0 && tick >= self.cfg.end_tick {
+                self.clients[i].alive = false;
+                continue;
+            }
             if self.cfg.end == End::ClientSilent && i == 1 && tick >= self.cfg.end_tick {
                 self.clients[i].alive = false;
                 if self.end_initiated_tick.is_none() {
@@ -650,7 +657,7 @@ impl<'c> World<'c> {
                         ));
                     }
                 }
-                End::ServerBroadcastOverBudget | End::ServerBroadcastExceptOverBudget => {
+                End::ServerBroadcastOverBudget | End::ServerBroadcastExceptOverBudget | End::ServerBroadcastExceptOverBudgetSilentPeer => {
                     let big = vec![0x5Au8; 5 * 1024 * 1024 + 1];
                     let rs = &mut self.rs;
                     let except = self.clients[1].id;
@@ -710,7 +717,7 @@ impl<'c> World<'c> {
         }
         let affected: Vec<usize> = match cfg.end {
             End::None => vec![],
-            End::ClientRenetDisconnect | End::ClientTransportDisconnect | End::ServerRenetDisconnect | End::ServerBroadcastExceptOverBudget => vec![0],
+            End::ClientRenetDisconnect | End::ClientTransportDisconnect | End::ServerRenetDisconnect | End::ServerBroadcastExceptOverBudget | End::ServerBroadcastExceptOverBudgetSilentPeer => vec![0],
             End::ServerDisconnectAll | End::ServerKickThenDisconnectAll | End::ServerBroadcastOverBudget => (0..self.clients.len()).collect(),
             End::ClientSilent | End::ClientBadChannel => vec![1],
             End::DuplicateId => vec![],
@@ -867,6 +874,7 @@ pub fn scenarios(tier: Tier) -> Vec<UdpScenario> {
         ("RenetServer::disconnect(client 0) then transport.disconnect_all in one tick", End::ServerKickThenDisconnectAll),
         ("broadcast_message over the channel budget", End::ServerBroadcastOverBudget),
         ("broadcast_message_except(client 1) over the channel budget", End::ServerBroadcastExceptOverBudget),
+        ("client 0 vanishes and broadcast_message_except(client 1) goes over the channel budget", End::ServerBroadcastExceptOverBudgetSilentPeer),
     ] {
         v.push(UdpScenario {
             cfg: UdpCfg {
@@ -880,7 +888,7 @@ pub fn scenarios(tier: Tier) -> Vec<UdpScenario> {
                 // time-out 2 s = 8 ticks, plus resend and teardown
                 tail: 14,
                 fates: all.clone(),
-                local_host: end != End::ServerDisconnectAll && end != End::ServerKickThenDisconnectAll && end != End::ServerBroadcastOverBudget,
+                local_host: !matches!(end, End::ServerDisconnectAll | End::ServerKickThenDisconnectAll | End::ServerBroadcastOverBudget | End::ServerBroadcastExceptOverBudget | End::ServerBroadcastExceptOverBudgetSilentPeer),
                 dead_first_addr: false,
                 server_hitch: None,
                 empty_flood: None,
